@@ -8,6 +8,15 @@ using namespace momo;
 typedef unsigned long long ull;
 
 static int g_pool[1 << 16];
+// the intended instantiations (checked at compile time): the code type really has the width of the element type
+static_assert(std::is_same<decltype(internal::RadixSorterCodeGetter<uint8_t*>()((uint8_t*)nullptr)), uint8_t>::value, "8-bit code");
+static_assert(std::is_same<decltype(internal::RadixSorterCodeGetter<uint16_t*>()((uint16_t*)nullptr)), uint16_t>::value, "16-bit code");
+static_assert(std::is_same<decltype(internal::RadixSorterCodeGetter<uint32_t*>()((uint32_t*)nullptr)), uint32_t>::value, "32-bit code");
+static_assert(std::is_same<decltype(internal::RadixSorterCodeGetter<uint64_t*>()((uint64_t*)nullptr)), uint64_t>::value, "64-bit code");
+static_assert(std::is_same<decltype(internal::RadixSorterCodeGetter<int32_t*>()((int32_t*)nullptr)), uint32_t>::value, "signed 32-bit -> 32-bit code");
+static_assert(std::is_same<decltype(internal::RadixSorterCodeGetter<int**>()((int**)nullptr)), uintptr_t>::value && sizeof(uintptr_t) == 8, "pointer code");
+static_assert(internal::RadixSorter<1>::selectionSortMaxCount == 2 && internal::RadixSorter<3>::selectionSortMaxCount == 4 &&
+	internal::RadixSorter<8>::selectionSortMaxCount == 32 && internal::RadixSorter<16>::selectionSortMaxCount == 512, "thresholds 2^(R/2+1)");
 
 template<size_t R, typename T>
 static void run_int(std::istream& is, size_t n)
@@ -28,6 +37,20 @@ static void run_int(std::istream& is, size_t n)
 	std::sort(groups.begin(), groups.end());
 	for (auto& g : groups) os << " " << g.first << ":" << g.second;
 	printf("%s%s\n", guards ? "" : "OOB ", os.str().c_str());
+}
+
+// RADIXI R W n v0 ... : SIGNED integers (intW_t, values given as signed decimals) through the 2-argument Sort
+template<size_t R, typename T>
+static void run_signed(std::istream& is, size_t n)
+{
+	static_assert(std::is_signed<T>::value && std::is_integral<T>::value, "signed element type");
+	static_assert(std::is_signed<char>::value, "plain char is signed on this target");
+	std::vector<T> v(n);
+	for (size_t i = 0; i < n; ++i) { long long x; is >> x; v[i] = T(x); }
+	internal::RadixSorter<R>::Sort(v.data(), n);
+	std::ostringstream os;
+	for (size_t i = 0; i < n; ++i) os << (long long)v[i] << " ";
+	printf("%s|\n", os.str().c_str());
 }
 
 template<size_t R>
@@ -68,6 +91,23 @@ template<size_t R>
 static void run_r(const std::string& cmd, std::istream& is)
 {
 	if (cmd == "RADIXP") { size_t n; is >> n; run_ptr<R>(is, n); return; }
+	if (cmd == "RADIXI")
+	{
+		size_t w, n; is >> w >> n;
+		switch (w) {
+		case 8: run_signed<R, int8_t>(is, n); break;
+		case 16: run_signed<R, int16_t>(is, n); break;
+		case 32: run_signed<R, int32_t>(is, n); break;
+		case 64: run_signed<R, int64_t>(is, n); break;
+		case 7: run_signed<R, char>(is, n); break;        // plain char (signed on this target)
+		case 1: { std::vector<char> raw(n); std::unique_ptr<bool[]> v(new bool[n + 1]);   // bool
+			for (size_t i = 0; i < n; ++i) { long long x; is >> x; v[i] = (x != 0); }
+			internal::RadixSorter<R>::Sort(v.get(), n);
+			std::ostringstream os; for (size_t i = 0; i < n; ++i) os << int(v[i]) << " ";
+			printf("%s|\n", os.str().c_str()); break; }
+		default: puts("?"); }
+		return;
+	}
 	if (cmd == "RSORT")
 	{
 		size_t w, g, n; is >> w >> g >> n;
@@ -93,6 +133,22 @@ int main()
 	std::string line;
 	while (std::getline(std::cin, line))
 	{
+		std::istringstream is0(line); std::string cmd0; is0 >> cmd0;
+		if (cmd0 == "SCODE" || cmd0 == "UCODE")
+		{	// the real default code getter on one value: SCODE W x (intW_t) / UCODE W x (uintW_t)
+			int w; long long x; ull ux; ull code = 0;
+			if (cmd0 == "SCODE") { is0 >> w >> x;
+				if (w == 8) { int8_t v = int8_t(x); code = internal::RadixSorterCodeGetter<int8_t*>()(&v); }
+				else if (w == 16) { int16_t v = int16_t(x); code = internal::RadixSorterCodeGetter<int16_t*>()(&v); }
+				else if (w == 32) { int32_t v = int32_t(x); code = internal::RadixSorterCodeGetter<int32_t*>()(&v); }
+				else { int64_t v = int64_t(x); code = internal::RadixSorterCodeGetter<int64_t*>()(&v); } }
+			else { is0 >> w >> ux;
+				if (w == 8) { uint8_t v = uint8_t(ux); code = internal::RadixSorterCodeGetter<uint8_t*>()(&v); }
+				else if (w == 16) { uint16_t v = uint16_t(ux); code = internal::RadixSorterCodeGetter<uint16_t*>()(&v); }
+				else if (w == 32) { uint32_t v = uint32_t(ux); code = internal::RadixSorterCodeGetter<uint32_t*>()(&v); }
+				else { uint64_t v = uint64_t(ux); code = internal::RadixSorterCodeGetter<uint64_t*>()(&v); } }
+			printf("%llu\n", code); continue;
+		}
 		std::istringstream is(line); std::string cmd; size_t r; is >> cmd >> r;
 		switch (r) {
 #define C(R) case R: run_r<R>(cmd, is); break;
